@@ -309,6 +309,29 @@ Section WithHash.
       split; [intros [Hx|[Hx|[[Hx|Hx] _]]]; congruence|]. split; [intros ro Hx; congruence|discriminate].
   Qed.
 
+  (* ---------------- persistence: time alone changes nothing that is stored ---------------- *)
+  Definition is_advance (c : call) : bool := match c with Advance _ => true | _ => false end.
+
+  Theorem time_changes_nothing_stored : forall cs s,
+    forallb is_advance cs = true ->
+    let s' := run s cs in
+    acs s' = acs s /\ marks (ctl s') = marks (ctl s) /\ min_delay (ctl s') = min_delay (ctl s) /\
+    cruns s' = cruns s /\ now (ctl s) <= now (ctl s').
+  Proof.
+    induction cs as [|c cs IH]; intros s Hall; [cbn; repeat split; lia|].
+    cbn [forallb] in Hall. apply andb_true_iff in Hall. destruct Hall as [Hc Hall].
+    cbv zeta. unfold TimelockController.run. cbn [fold_left]. fold (run (fst (step s c)) cs).
+    destruct (IH (fst (step s c)) Hall) as (I0 & I1 & I2 & I3 & I4).
+    destruct c; try discriminate.
+    assert (E : acs (fst (step s (Advance n))) = acs s /\ marks (ctl (fst (step s (Advance n)))) = marks (ctl s)
+                /\ min_delay (ctl (fst (step s (Advance n)))) = min_delay (ctl s)
+                /\ cruns (fst (step s (Advance n))) = cruns s /\ now (ctl s) <= now (ctl (fst (step s (Advance n))))).
+    { unfold TimelockController.step. destruct (step_ok s (Advance n)) as [[s1 r]|] eqn:Es; cbn [fst].
+      - apply advance_spec in Es. destruct Es as (Hn & _ & -> & _). cbn. repeat split; lia.
+      - repeat split; lia. }
+    destruct E as (E0 & E1 & E2 & E3 & E4). rewrite I0, I1, I2, I3. repeat split; auto; lia.
+  Qed.
+
   (* ---------------- roles ---------------- *)
   Theorem roles : forall s s' r,
     (forall o d p au, step_ok s (ScheduleOp o d p au) = Ok (s', r) ->
